@@ -3,6 +3,7 @@ package main
 // Per-function verification: entry state, loop cutting, postconditions, lock balance, model extraction.
 
 import (
+	"os"
 	"fmt"
 	"go/ast"
 	"go/types"
@@ -26,6 +27,7 @@ type FnResult struct {
 	WallMs      float64       `json:"wall_ms"`
 	Canary      string        `json:"canary,omitempty"`
 	Covers      map[string]bool `json:"covers,omitempty"`
+	ReachableReturns int        `json:"reachable_return_paths"`
 }
 
 type ModelInputs struct {
@@ -156,6 +158,11 @@ func (fx *FnCtx) finish(res *FnResult, t0 time.Time) {
 	}
 	sort.Strings(res.Notes)
 	res.Covers = fx.covers
+	res.ReachableReturns = fx.reachableReturns
+	if fx.reachableReturns == 0 && !fx.aborted && len(fx.unsup) == 0 && fx.paths > 0 && fx.hasReturn() {
+		fx.unsup["no return path is reachable under the precondition (vacuous proof)"] = true
+		res.Unsupported = append(res.Unsupported, "no return path is reachable under the precondition (vacuous proof)")
+	}
 	res.WallMs = float64(time.Since(t0).Microseconds()) / 1000
 }
 
@@ -214,9 +221,10 @@ func (fx *FnCtx) checkPost(st *State, results []*Val) {
 		fx.aborted = true
 		return
 	}
+	if fx.reachableReturns == 0 && (os.Getenv("NOFEAS") != "" || fx.sol.Feasible()) {
+		fx.reachableReturns++
+	}
 	if fx.con != nil {
-		ret := fx.fn.Blocks[0]
-		_ = ret
 		env := fx.fnEnv(st, point{nil, 0})
 		env.useLocals = false
 		sig := fx.fn.Signature
@@ -297,6 +305,11 @@ func (fx *FnCtx) loopEnv(st *State, b *ssa.BasicBlock) *SpecEnv {
 		}
 		if phi.Comment != "" {
 			env.vars[phi.Comment] = st.env[phi]
+			if i := strings.LastIndex(phi.Comment, "."); i >= 0 {
+				if _, has := env.vars[phi.Comment[i+1:]]; !has {
+					env.vars[phi.Comment[i+1:]] = st.env[phi]
+				}
+			}
 		}
 	}
 	return env
@@ -525,4 +538,15 @@ func (fx *FnCtx) extractInputs(get func([]string) map[string]string) *ModelInput
 		mi.Bytes[n] = out
 	}
 	return mi
+}
+
+func (fx *FnCtx) hasReturn() bool {
+	for _, b := range fx.fn.Blocks {
+		for _, ins := range b.Instrs {
+			if _, ok := ins.(*ssa.Return); ok {
+				return true
+			}
+		}
+	}
+	return false
 }
